@@ -13,7 +13,7 @@ import (
 func init() {
 	register(&propDef{
 		ID:       "C19",
-		Explain:  "Decided (structural necessary conditions): no value accumulated while ranging over a map reaches a result of path/value/client-gnmi functions unless it is sorted first or the map provably has one entry (map-order independence), and no callback runs inside such a loop; ToStrings places target then origin first only when asked and non-empty, falls back to the deprecated element list verbatim when there are no elems, and otherwise emits each element's name followed by its key values (single key: the value; several: through sortedVals, which sorts the keys before collecting values); the complete CompletePath origin table; value.Equal arm by arm: nil-safe getter and comma-ok to the same kind on the other side, false on mismatch, true only through == of the same fields (leaf-lists: length boundaries and element-wise recursion), unhandled kinds => false; FromScalar's constructible kinds are a subset of ToScalar's convertible kinds, each ToScalar arm returns its own kind's getter, both have an error default; the client query path goes through pathToString -> ygot.StringToPath, pathToString escapes exactly the separator it joins with and writes only into its own copy; no retained append on a foreign/forked base in path and client/gnmi.",
+		Explain:  "Decided (structural necessary conditions): no value accumulated while ranging over a map reaches a result of path/value/client-gnmi functions unless it is sorted first or the map provably has one entry (map-order independence), and no callback runs inside such a loop; ToStrings places target then origin first only when asked and non-empty, falls back to the deprecated element list verbatim when there are no elems, and otherwise emits each element's name followed by its key values (single key: the value; several: through sortedVals, which sorts the keys before collecting values); the complete CompletePath origin table; value.Equal arm by arm: nil-safe getter and comma-ok to the same kind on the other side, false on mismatch, true only through == of the same fields (leaf-lists: length boundaries and element-wise recursion), unhandled kinds => false; FromScalar's constructible kinds are a subset of ToScalar's convertible kinds, each ToScalar arm returns its own kind's getter, both have an error default; the client query path goes through pathToString -> ygot.StringToPath, pathToString escapes exactly the separator it joins with and writes only into its own copy; no retained append on a foreign/forked base in path and client/gnmi. Round-5 addition: FromScalar stores the type-switched input or a plain Go conversion of it into the oneof wrapper - no call and no arithmetic on the way.",
 		NotCover: "round-trip equality through ygot and the wire, float precision, UTF-8 handling inside ygot",
 		Run:      runC19,
 	})
